@@ -281,6 +281,30 @@ INSERT INTO z SELECT i, i%%13, CASE i%%3 WHEN 0 THEN 'k'||(i%%5) WHEN 1 THEN 'K'
 			st = append(st, "DROP TABLE m07", "DROP INDEX m20_w", "CREATE TABLE late (a, b)", "INSERT INTO late VALUES (1, 2)")
 			return st
 		}()},
+		{"definitions-sqlittle-may-not-understand", []string{
+			`CREATE TABLE ok1 (id INTEGER PRIMARY KEY, v)`,
+			`INSERT INTO ok1 VALUES (1, 'fine')`,
+			`CREATE TABLE gen (a, b AS (a + 1), c GENERATED ALWAYS AS (a * 2) STORED)`,
+			`INSERT INTO gen (a) VALUES (1), (2)`,
+			`CREATE TABLE strict1 (a INT, b TEXT) STRICT`,
+			`INSERT INTO strict1 VALUES (1, 'x')`,
+			`CREATE TABLE conf (a PRIMARY KEY ON CONFLICT REPLACE, b UNIQUE ON CONFLICT IGNORE)`,
+			`INSERT INTO conf VALUES (1, 2)`,
+			`CREATE TABLE dflt (a, b DEFAULT (1 + 2), c DEFAULT CURRENT_TIMESTAMP, d DEFAULT -1.5, e DEFAULT x'00', f DEFAULT TRUE)`,
+			`INSERT INTO dflt (a) VALUES (1)`,
+			`CREATE TABLE "weird name" ("col one", [col two], "select")`,
+			`INSERT INTO "weird name" VALUES (1, 2, 3)`,
+			`CREATE TABLE typed (a UNSIGNED BIG INT, b DOUBLE PRECISION, c VARYING CHARACTER(255), d DECIMAL(10,5))`,
+			`INSERT INTO typed VALUES (1, 2.5, 'x', 3)`,
+			`CREATE TABLE chk (a CHECK (a IS NOT NULL AND a BETWEEN 1 AND 10), b CHECK (b IN (1, 2, 3)), c CHECK (c LIKE 'x%'))`,
+			`INSERT INTO chk VALUES (1, 2, 'xx')`,
+			`CREATE VIEW vw AS SELECT * FROM ok1`,
+			`CREATE TRIGGER trg AFTER INSERT ON ok1 BEGIN SELECT 1; END`,
+			`CREATE TABLE ok2 (id INTEGER PRIMARY KEY, w)`,
+			`INSERT INTO ok2 VALUES (5, 'also fine')`,
+			`CREATE INDEX gen_b ON gen (b)`,
+			`CREATE INDEX ok2_expr ON ok2 (w || 'x', id) WHERE w IS NOT NULL`,
+		}},
 		{"named-like-rowid", []string{
 			`CREATE TABLE r (oid TEXT, rowid INTEGER, label)`,
 			`INSERT INTO r VALUES ('a', 100, 'x'), ('b', 200, 'y'), ('c', NULL, 'z')`,
